@@ -362,7 +362,99 @@ def c09(ctx):
         if y != x:
             fail(ctx, 'C09', None, 'invalid', None, 'invalid-input-not-returned-unchanged', 'kind=%s' % kind, {'input': x, 'output': y, 'extra_feats': ['invalid:' + kind]})
     ctx.cov['invalid_texts'] = ninv
+    file_mode_lane(ctx, valid_texts, [x for _, x in inv], quick)
     probes(ctx, 'C09')
+
+
+def file_mode_lane(ctx, valid_texts, invalid, quick):
+    """C09 in file mode (`format -f`, the real CLI, one process per file): after formatting a valid file, the FILE holds the author's essential
+    tokens in order and still parses; a file that is not a sentence of the grammar is left byte-identical and the exit status is non-zero.
+    The valid files are written in loose layouts (deep indentation, blank lines, CRLF, trailing blanks) so that the formatted text is
+    shorter than the file it replaces (round 7, C09l: a rewrite that does not truncate leaves the old tail behind)."""
+    import os
+    import subprocess
+    from concurrent.futures import ThreadPoolExecutor
+    cli = ctx.cli
+    rng = random.Random('%s/c09-file' % ctx.seed)
+    jobs = []
+    for k, text in enumerate(valid_texts[:(24 if quick else 160)]):
+        style = ('indent', 'blank', 'crlf', 'trail')[k % 4]
+        lines = text.split('\n')
+        if style == 'indent':
+            loose = '\n'.join((' ' * 24 + l) if l.strip() else l for l in lines) + '\n\n\n'
+        elif style == 'blank':
+            loose = '\n\n\n'.join(lines) + '\n'
+        elif style == 'crlf':
+            loose = '\r\n'.join(l + '   ' for l in lines) + '\r\n\r\n'
+        else:
+            loose = '\n'.join(l + ' \t ' * 6 for l in lines) + '\n' * 20
+        jobs.append(('valid', k, loose))
+    for k, x in enumerate(invalid[:(24 if quick else 160)]):
+        try:
+            if dslparse.valid(x):
+                continue
+        except dslparse.Undecided:
+            pass
+        if '\x00' in x:
+            continue
+        jobs.append(('invalid', k, x))
+
+    def run(job):
+        kind, k, text = job
+        wd = os.path.join(ctx.scr.dir, 'c09f', '%s%d' % (kind, k))
+        os.makedirs(wd, exist_ok=True)
+        src = os.path.join(wd, 'x.dsl')
+        data = text.encode('utf-8', 'surrogateescape')
+        with open(src, 'wb') as f:
+            f.write(data)
+        with open(os.path.join(wd, 'log'), 'wb') as lf:
+            p = subprocess.run(['timeout', '-s', 'QUIT', '60', cli, 'format', '-f', src], stdout=lf, stderr=subprocess.STDOUT, cwd=wd, stdin=subprocess.DEVNULL)
+        with open(src, 'rb') as f:
+            after = f.read()
+        return job, data, p.returncode, after
+    with ThreadPoolExecutor(max_workers=16) as ex:
+        results = list(ex.map(run, jobs))
+    nshrunk = 0
+    for (kind, k, text), data, rc, after in results:
+        rep = {'input': text, 'mode': 'format -f', 'exit': rc, 'file_after': after[:3000].decode('utf-8', 'replace')}
+        if rc in (124, 131, 137):
+            ctx.counters['file-mode-timeout (C11 domain)'] += 1
+            continue
+        ctx.evaluated(1, key=('file-mode', kind, k))
+        if kind == 'invalid':
+            if after != data:
+                fail(ctx, 'C09', None, 'file-mode', None, 'file-changed-on-syntax-error', 'format -f rewrote a file that is not a sentence of the grammar (%d -> %d bytes)' % (len(data), len(after)), rep)
+            if rc == 0:
+                fail(ctx, 'C09', None, 'file-mode', None, 'file-mode-error-not-reported', 'format -f exits 0 on a file that is not a sentence of the grammar', rep)
+            continue
+        if rc != 0:
+            fail(ctx, 'C09', None, 'file-mode', None, 'valid-file-rejected', 'format -f exits %d on a valid file' % rc, rep)
+            continue
+        if len(after) < len(data):
+            nshrunk += 1
+        y = after.decode('utf-8', 'surrogateescape')
+        try:
+            want_tok = dsllex.essential(dsllex.split(dsllex.lex(text))[0])
+        except dsllex.LexError:
+            ctx.counters['file-mode-input-not-lexable-by-the-harness'] += 1
+            continue
+        try:
+            got_tok = dsllex.essential(dsllex.split(dsllex.lex(y))[0])
+        except dsllex.LexError as e:
+            fail(ctx, 'C09', None, 'file-mode', None, 'file-not-lexable-after-format', str(e), rep)
+            continue
+        if got_tok != want_tok:
+            i = next((n for n, (a, b) in enumerate(zip(got_tok, want_tok)) if a != b), min(len(got_tok), len(want_tok)))
+            fail(ctx, 'C09', None, 'file-mode', None, 'file-tokens-changed', 'after format -f the file\'s essential token sequence differs at #%d of %d (file has %d): got %s want %s' % (
+                i, len(want_tok), len(got_tok), got_tok[max(0, i - 3):i + 3], want_tok[max(0, i - 3):i + 3]), rep)
+            continue
+        r1 = ctx.vapi.compile(y, [])
+        if r1.get('syn_err'):
+            fail(ctx, 'C09', None, 'file-mode', None, 'file-does-not-parse-after-format', r1['syn_err'][:300], rep)
+    ctx.cov['file_mode_files'] = len(results)
+    ctx.cov['file_mode_valid_files_that_shrank'] = nshrunk
+    if results and not nshrunk:
+        ctx.inconc('file-mode lane: no formatted file came out shorter than its input (the lane cannot see a rewrite that does not truncate)')
 
 
 def selfcheck(ctx, text, toks):
